@@ -7,7 +7,7 @@ import Gleece.Driver.Common
 import Gleece.Driver.Paths
 import Gleece.Driver.Graph
 import Gleece.Driver.Annot
-import Gleece.Driver.IR
+import Gleece.Driver.IRHandler
 open Lean Gleece.Driver
 
 def handlers : List (String × Handler) := [
